@@ -605,6 +605,34 @@ func OddScenarios(prop string) []*sim.Scenario {
 	return out
 }
 
+// LeakScenarios returns, for property prop (C20), one scenario per strategy that judges one thing only: once
+// every call has returned, every deadline has passed and every node has answered (or had its request cancelled),
+// no goroutine the strategy started is left.  Every other verdict belongs to C07 and is dropped here.
+func LeakScenarios(prop string) []*sim.Scenario {
+	var out []*sim.Scenario
+	for _, ad := range adapters {
+		name := ad.name
+		inner := execFor(ad)
+		out = append(out, &sim.Scenario{Property: prop, Name: "strategy-goroutines-" + name, Gen: genFor(ad), Weight: 1, Exec: func(plan any, sched *simrt.Tape) *sim.Outcome {
+			o := inner(plan, sched)
+			if o == nil {
+				return o
+			}
+			if o.Violation != nil && !strings.HasPrefix(o.Violation.Kind, "harness-") {
+				o.Violation = nil
+			}
+			if o.Violation == nil && o.Res != nil && len(o.Res.Stranded) > 0 {
+				l := append([]string{}, o.Res.Stranded...)
+				sort.Strings(l)
+				o.Violation = env.Viol(prop+"/stranded-goroutine/"+name, "%d goroutine(s) started by the %s strategy never finished although every call has returned, the timeout has passed and every node has answered or been cancelled: %s", len(l), name, strings.Join(l, "; "))
+			}
+			o.Nontrivial = true
+			return o
+		}})
+	}
+	return out
+}
+
 func init() {
 	// C07_CRASHERS=1 feeds the odd classes to C07's own scenarios too (developer aid).
 	if sel := os.Getenv("C07_CRASHERS"); sel != "" {
